@@ -159,7 +159,7 @@ impl Property for C04 {
         "C04"
     }
     fn rule(&self) -> &'static str {
-        "proptest single cases: world = gateway + gas service + ITS (current-source token injected natively) with one ITS-deployed token, one registered canonical token with 500 in custody, an executable probe; a trusted-chain history of 0-6 set/remove operations over 3 chains; optionally a prior successful delivery from the same origin; then a conforming delivery (ReceiveFromHub wrapping a mint / a release / a transfer with data / a deploy with or without minter) and at most one deviation from the statement's list (never approved; approved with other payload / id / source address / destination; already executed; approval re-submitted after execution; source chain not the hub (another chain, or the hub's name in another letter case / with a trailing space); source address not the hub address; SendToHub wrapper; raw inner message; inner type 2; origin never trusted / removed again / removed between approval and execution / a trusted name in another letter case or with a trailing space; unknown token; undecodable recipient or minter (garbage, well-formed XDR of a string / number / bytes / vector, truncated address); amount 2^127 / 2^128+a / 2^192+a / 2^255+a; truncated / padded payload; any byte-level mutation - bit flip, dirty type word or padding, shifted offset, altered length - that leaves a non-canonical encoding, applied to the whole payload or to the nested message inside a well-formed envelope; a nested blob of 0..69 bytes; approved under the hub chain but delivered naming the trusted origin chain / the service's own chain / the hub name in another letter case). Oracle: effects (exact balance / custody / registry delta, gateway status executed, second delivery refused) iff no deviation; otherwise execute fails and the ledger snapshot is identical (approval still approved, not executed). non-trivial = a deviation is present, or the trust history contains a removal; distinct by Debug hash"
+        "proptest single cases: world = gateway + gas service + ITS (current-source token injected natively) with one ITS-deployed token, one registered canonical token with 500 in custody, an executable probe; a trusted-chain history of 0-6 set/remove operations over 3 chains; optionally a prior successful delivery from the same origin; then a conforming delivery (ReceiveFromHub wrapping a mint / a release / a transfer with data / a deploy with or without minter) and at most one deviation from the statement's list (never approved; approved with other payload / id / source address / destination; already executed; approval re-submitted after execution - with 0..150 days passing between approval, delivery and the retries; source chain not the hub (another chain, or the hub's name in another letter case / with a trailing space); source address not the hub address; SendToHub wrapper; raw inner message; inner type 2; origin never trusted / removed again / removed between approval and execution / a trusted name in another letter case or with a trailing space; unknown token; undecodable recipient or minter (garbage, well-formed XDR of a string / number / bytes / vector, truncated address); amount 2^127 / 2^128+a / 2^192+a / 2^255+a; truncated / padded payload; any byte-level mutation - bit flip, dirty type word or padding, shifted offset, altered length - that leaves a non-canonical encoding, applied to the whole payload or to the nested message inside a well-formed envelope; a nested blob of 0..69 bytes; approved under the hub chain but delivered naming the trusted origin chain / the service's own chain / the hub name in another letter case). Oracle: effects (exact balance / custody / registry delta, gateway status executed, second delivery refused) iff no deviation; otherwise execute fails and the ledger snapshot is identical (approval still approved, not executed). non-trivial = a deviation is present, or the trust history contains a removal; distinct by Debug hash"
     }
     fn cases(&self, tier: Tier) -> u64 {
         tier.pick(15000, 200000)
@@ -175,6 +175,12 @@ impl Property for C04 {
             v.push(Case { trust_history: vec![], origin: 0, kind: k, amount: 5, data_len: 4, seed: 1, dev: Dev::None , prior_delivery: false });
             for d in DEVS {
                 v.push(Case { trust_history: vec![], origin: 0, kind: k, amount: 5, data_len: 4, seed: 1, dev: d , prior_delivery: false });
+                if matches!(d, Dev::AlreadyExecuted | Dev::ReapprovedAfterExecution) {
+                    // seeds 5, 7: 61 / 150 days pass after the first delivery; 29: 30 days before, 61 after
+                    for seed in [5u64, 7, 29] {
+                        v.push(Case { trust_history: vec![], origin: 0, kind: k, amount: 5, data_len: 4, seed, dev: d, prior_delivery: false });
+                    }
+                }
             }
             for d in [Dev::OriginRemoved, Dev::OriginRemovedAfterApproval, Dev::NeverApproved, Dev::UnknownToken, Dev::SourceChainNotHub] {
                 v.push(Case { trust_history: vec![], origin: 0, kind: k, amount: 5, data_len: 4, seed: 1, dev: d, prior_delivery: true });
@@ -468,13 +474,23 @@ impl Property for C04 {
             Ok(())
         };
 
+        let days_before = [0u32, 0, 0, 30, 61][(case.seed / 8 % 5) as usize];
+        if days_before > 0 {
+            advance_ledgers(env, 17280 * days_before);
+            cx.label("days_pass_between_approval_and_delivery");
+        }
         let r = w.execute(source_chain, &mid, source_address, &payload);
         match dev {
             Dev::None | Dev::AlreadyExecuted | Dev::ReapprovedAfterExecution => {
                 cx.count("must_succeed");
                 ensure_p!(r.is_ok(), "conforming delivery ({:?}) was rejected: {:?}", case.kind, r);
                 conforming_effects(cx)?;
-                // exactly once
+                // exactly once, however much later (days derived from the case seed; temporary entries of that age are gone)
+                let days_after = [0u32, 0, 0, 1, 31, 61, 100, 150][(case.seed % 8) as usize];
+                if days_after > 0 {
+                    advance_ledgers(env, 17280 * days_after);
+                    cx.label(if days_after > 60 { "more_than_60_days_pass_after_delivery" } else { "days_pass_after_delivery" });
+                }
                 let snap1 = snapshot(env);
                 let ev1 = events_len(env);
                 let r2 = w.execute(source_chain, &mid, source_address, &payload);
